@@ -348,6 +348,12 @@ func runOne(sc *scen, st sched.Strategy, settle bool, hit map[int]bool) (rs resu
 					break
 				}
 			}
+			// a datagram from a brand-new remote right in front of it: with batch reads both arrive in one batch, and
+			// what happens to the stranger must not affect the accepted connection
+			// (only once the listener is closed: before that the stranger would legitimately become a new connection)
+			if lclosed {
+				dial().Write([]byte("stranger"))
+			}
 			peer.Write([]byte("reply-" + name))
 			c.SetReadDeadline(time.Now().Add(3 * time.Second))
 			for {
